@@ -80,9 +80,13 @@ class DynamicRecursionCache:
                 return self.cache[item_id]
             recursion_promise = RecursionPromise()
             self.cache[item_id] = recursion_promise
-            result = func(item, *args, **kwargs)
-            result = replace_promise(recursion_promise, result, result)
-            del self.cache[item_id]
+            try:
+                result = func(item, *args, **kwargs)
+                result = replace_promise(recursion_promise, result, result)
+            finally:
+                # never leave the placeholder behind when func raises: a stale entry
+                # would be returned for every later call with the same id(item)
+                del self.cache[item_id]
             return result
 
         return wrapper
